@@ -58,6 +58,33 @@ try:
         bad.append("lock not acquirable from a fresh process within 1.5 s: " + (r.stdout + r.stderr)[-200:].strip())
 except subprocess.TimeoutExpired:
     bad.append("lock probe in a fresh process did not finish (lock still held)")
+# lock bracket: at the moment the session's file is opened / closed the lock must be held (probed from a fresh process)
+held_probe = ("import os,sys; os.environ['MOLLI_HOME']=%r; from molli._aux.lock import rwlock; "
+              "from fasteners import InterProcessReaderWriterLock as L; l=L(rwlock(%r)); ok=l.acquire_write_lock(timeout=0.3); "
+              "print('ACQ', ok); sys.exit(7 if ok else 0)" % (os.environ["MOLLI_HOME"], p))
+
+
+def lock_is_free():
+    try:
+        return subprocess.run([sys.executable, "-c", held_probe], capture_output=True, text=True, timeout=30).returncode == 7
+    except subprocess.TimeoutExpired:
+        return False
+
+
+b2 = UkvCollectionBackend(p, readonly=False, bufsize=0)
+for meth in ("begin_write", "end_write"):
+    orig = getattr(b2, meth)
+
+    def wrapped(*a, _orig=orig, _m=meth, **k):
+        if lock_is_free():
+            bad.append(f"{_m} (file {'open' if _m == 'begin_write' else 'close'}) ran while the write lock was NOT held: another process could take the lock")
+        return _orig(*a, **k)
+    setattr(b2, meth, wrapped)
+try:
+    with b2.writing():
+        b2.put("zz", b"2")
+except BaseException as e:
+    bad.append(f"plain writing session raised {type(e).__name__}")
 if bad:
     print("REPRODUCED:", "; ".join(bad))
     sys.exit(0)
